@@ -233,6 +233,9 @@ func genBatch(r *rng, tier, prop string, st *stats) []taggedScen {
 				if n == maxN && !thorough && k%3 != 0 {
 					return
 				}
+				if n == maxN && thorough && k%4 != 0 {
+					return // 5040 orders x 3 worker counts: every fourth (the evaluation of a case costs about a second)
+				}
 				p := batchPlan{n: n, conc: c, N: 1, fb: "default", exec: []string{"res", "any"}[k%2], shape: batchShapes[k%len(batchShapes)],
 					impl: impls[k%3], release: relOf(order, 1, true), postAct: 5}
 				// one item in a few fails, so that error slots are positional too
@@ -272,7 +275,7 @@ func genBatch(r *rng, tier, prop string, st *stats) []taggedScen {
 	// random large: n <= 64, c <= 16
 	nrand := 40
 	if thorough {
-		nrand = 600
+		nrand = 200
 	}
 	for i := 0; i < nrand; i++ {
 		n := 1 + r.intn(64)
